@@ -135,7 +135,15 @@ func c01Degenerate() []string {
 		"var a =", "var a, b =", "x = 1; *x = 2", "f = func(a) { }; f(...)", "f = func(a, b) { }; f(...)", "probe(...)",
 		"a = nilptrs; for x in a { x }", "\"s\" * 9223372036854775807", "\"ab\" * 4611686018427387904", "go boom()", "go boomv(1)",
 		"go func() { boom() }()", "a = 1; make(a.b)", "add([1, 2]...)", "hfix3([1, 2, 3]...)", "cat([\"a\", \"b\"]...)", "add(list...)",
-		"x = nilptrs[0]; \"s\" + x", "[][]*string{nilptrs}", "[]*int64{nilptrs[0]}", "p = nilptrs[0]; [][]*int64{[p]}", "return", "a, = 1", "[ ]", "{ }", "throw", "delete()", "close(nothing)", "close(ch); close(ch)",
+		"x = nilptrs[0]; \"s\" + x",
+		// pointers that are nil, typed containers of pointers, types that reflect refuses to build
+		"a = make([]*int64, 1); *a[0]", "*nilptrs[0]", "p = nilptrs[0]; *p", "p = nilptrs[0]; *p = 1", "a = make([]*int64, 1); *a[0] = 1", "a = make([]*int64, 2); for x in a { *x }",
+		"a = make([]*int64, 1); a[0].x", "a = make([]*int64, 1); a[0][0]", "a = make([]*int64, 1); -a[0]", "a = make([]*int64, 1); a[0]()", "a = make(*int64); *a", "a = new(int64); **a",
+		"make(map[struct{A []int64}]int64)", "a = map[struct{A []string}]bool{}", "make(chan map[struct{A struct{B []int64}}]int64)", "make([]map[[]int64]int64)", "make(map[map[string]int64]int64)",
+		"make([]map[struct{F func}]int64, 2)", "go func() { make(map[struct{A []int64}]int64) }(); hzero()", "func() { make(map[struct{A []int64}]int64) }()", "make(struct{A map[[]int64]int64})",
+		"m = {\"a\": 1, \"b\": 2, \"c\": 3}; for k, v in m { delete(m, \"a\"); delete(m, \"b\"); delete(m, \"c\") }", "m = {\"a\": 1, \"b\": 2}; for k in m { m = nil }",
+		"a = [1, 2, 3]; for x in a { a = [] }", "a = make([]int64, 3); for i, x in a { }", "[]*int64{nil}", "[]int64{nothing}", "[][]int64{nothing}", "map[string]*int64{\"a\": nothing}",
+		"[][]*string{nilptrs}", "[]*int64{nilptrs[0]}", "p = nilptrs[0]; [][]*int64{[p]}", "return", "a, = 1", "[ ]", "{ }", "throw", "delete()", "close(nothing)", "close(ch); close(ch)",
 		"ch <- 1; close(ch); ch <- 2", "<- nothing", "nothing <- 1", "a = []; a[0:1] = [1]", "a = \"s\"; a[1:2] = \"x\"", "*nothing = 1", "*pt = 1",
 		"&nothing", "x = &n; *x = \"s\"", "pt.A = \"s\"", "pt.C = 1", "pt.A.B", "nothing.x", "nothing.x = 1", "n.x = 1", "n[0] = 1", "n[0]", "str[-1]", "str[100]",
 		"list[1:0]", "list[0:9]", "list[0:1:99]", "list[-1:]", "ints[5] = 1", "ints[3] = \"s\"", "ints[0] = nothing", "strs[1] = 2", "strs.a = nil",
